@@ -15,7 +15,8 @@ def stat_nontrivial(evs):
 TDIGEST_JOB = job("tdigest",
     harness="tdigest_rec", inc=["common", "tdigest"], spec="TraceTDigest", owners=["C17"], serde=True,
     files={Q: 8, T: 48},
-    args=lambda tier, seed, k, profile: ["--seed", seed, "--segments", 5 if tier == Q else 8, "--events", 220 + 30 * (k % 4),
+    args=lambda tier, seed, k, profile: ["--seed", seed, "--segments", 5 if tier == Q else 8, "--events", (220 if tier == Q else 420) + 30 * (k % 4),
+                                         "--bigk", 0 if tier == Q else 20,
                                          "--serde", 20 if profile == "serde" else 4, "--ref", "/repo/tdigest/test",
                                          "--hdr", 70 if profile == "serde" else 12],
     nontrivial=tdigest_nontrivial,
